@@ -546,6 +546,34 @@ impl Server {
                 }
                 Ok(json!(calls))
             }
+            // write_all built from single write() calls by a caller that RETRIES a failed write (up to three times): the
+            // unaccepted bytes are offered again, as after EINTR / ENOSPC-then-space / a quota that was lifted
+            "w_write_all_retrying" => {
+                let d = a!(data_arg(&req["data"]));
+                let mut off = 0usize;
+                let mut errors = 0u64;
+                let mut calls = 0u64;
+                while off < d.len() || calls == 0 {
+                    let r = match self.get(req)? {
+                        Sess::SW(w) => w.write(&d[off..]),
+                        #[cfg(any(feature = "astd", feature = "tok"))]
+                        Sess::AW(w) => ab(w.write(&d[off..])),
+                        _ => return Err(bad("not a writer".into())),
+                    };
+                    calls += 1;
+                    match r {
+                        Ok(0) if off < d.len() => return Err(bad("write accepted nothing".into())),
+                        Ok(n) => off += n,
+                        Err(e) => {
+                            errors += 1;
+                            if errors > 3 {
+                                ie::<()>(Err(e))?;
+                            }
+                        }
+                    }
+                }
+                Ok(json!({"calls": calls, "errors": errors}))
+            }
             "w_flush" => match self.get(req)? {
                 Sess::SW(w) => {
                     ie(w.flush())?;
